@@ -5,6 +5,7 @@ package main
 import (
 	"bytes"
 	"encoding/json"
+	"errors"
 	"fmt"
 	"math/rand"
 	"os"
@@ -59,7 +60,7 @@ type nbtDecEv struct {
 	Out []int `json:"out,omitempty"`
 }
 
-var nbtTargets = []string{"any", "any-plain", "map", "raw", "dynbt", "snbt", "rawstring", "skip", "field"}
+var nbtTargets = []string{"any", "any-plain", "map", "raw", "dynbt", "snbt", "rawstring", "skip", "field", "raw-unmarshal", "any-strict"}
 
 type skipAll struct {
 	Zzz int32 `nbt:"zzz-not-present"`
@@ -137,6 +138,32 @@ func nbtDecode(fmtName string, input []byte, target string, class string) (ev nb
 				if err == nil {
 					ev.Nodes = countAny(v)
 					ev.Tree, ev.Exact = projectAny(v), true
+				}
+			case "any-strict": // DisallowUnknownFields has nothing to refuse in an interface destination: same result
+				var v any
+				d := mk()
+				d.DisallowUnknownFields()
+				name, err = d.Decode(&v)
+				if err == nil {
+					ev.Nodes = countAny(v)
+					ev.Tree, ev.Exact = projectAny(v), true
+				}
+			case "raw-unmarshal": // captured as RawMessage, then RawMessage.Unmarshal / UnmarshalDisallowUnknownField into any
+				var raw nbt.RawMessage
+				name, err = mk().Decode(&raw)
+				if err == nil {
+					var v, v2 any
+					err = raw.Unmarshal(&v)
+					if err == nil {
+						err = raw.UnmarshalDisallowUnknownField(&v2)
+					}
+					if err == nil && mustJSON(projectAny(v)) != mustJSON(projectAny(v2)) {
+						err = errors.New("Unmarshal and UnmarshalDisallowUnknownField disagree")
+					}
+					if err == nil {
+						ev.Nodes = countAny(v)
+						ev.Tree, ev.Exact = projectAny(v), true
+					}
 				}
 			case "map":
 				var v map[string]any
